@@ -397,6 +397,12 @@ func (r *c11Run) transfer(caller *c11Acct, v sdk.ValAddress, fromVariant bool) {
 		return
 	}
 	ts := r.shares(ctx, to.addr, v)
+	if fromVariant && to.addr == from.addr && amt.IsPositive() {
+		// a spender asked to move the owner's shares to the owner itself: make sure it is the transfer rule,
+		// not a missing allowance, that decides
+		r.call(from, stakingPack("approveShares", v.String(), caller.addr, amt.BigInt()))
+		ctx = r.c.Ctx
+	}
 	allowance := r.c.App.StakingKeeper.GetAllowance(ctx, v, from.addr.Bytes(), caller.addr.Bytes())
 	fxFrom, fxTo := r.fx(ctx, from.addr), r.fx(ctx, to.addr)
 	incoming, _ := r.c.App.StakingKeeper.HasReceivingRedelegation(ctx, from.addr.Bytes(), v)
